@@ -8,6 +8,7 @@ import (
 	"fmt"
 	"math"
 	"os"
+	"runtime/debug"
 	"sort"
 	"strconv"
 	"strings"
@@ -21,16 +22,16 @@ import (
 
 type engine struct {
 	single, bigEntry, multiBlock, gapSeeks, gapGets, reopened, bloomCases int
-	corruptCases, readsAfterCorrupt                                      int
+	corruptCases, readsAfterCorrupt                                       int
 	corruptOnly                                                           bool
-	fid                                                        uint64
+	fid                                                                   uint64
 }
 
 func (e *engine) Rule() string {
 	return "C35: one table per case built from a sorted duplicate-free entry set (1..60 entries; user keys with 00/ff, byte-prefix pairs, " +
 		"1-4 versions per key, values 0..3 bytes or 40..400 bytes so that single entries exceed the block), block sizes 32..4096, bloom on/off; " +
 		"then get of every stored key and of neighbours (version+1/-1, absent keys), ascending and descending seeks to stored keys, gaps between blocks, " +
-		"before-first and after-last, full scans both ways; everything repeated after reopen; in ~30% of the small tables one bit inside a data block of the file is then flipped "+
+		"before-first and after-last, full scans both ways; everything repeated after reopen; in ~30% of the small tables one bit inside a data block of the file is then flipped " +
 		"(any byte of the block incl. its trailer), the table reopened, and every stored key read twice plus seeks and scans both ways (block cache enabled, cache settled between reads); non-trivial = table with at least 2 blocks and at least one answered get and one non-empty seek"
 }
 
@@ -229,6 +230,9 @@ func entsStr(es []*kv.Entry) string {
 func guard(f func() string) (out string) {
 	defer func() {
 		if r := recover(); r != nil {
+			if os.Getenv("VERIF_TRACE") != "" {
+				fmt.Fprintf(os.Stderr, "panic: %v\n%s\n", r, debug.Stack())
+			}
 			out = "panic"
 		}
 	}()
